@@ -278,6 +278,15 @@ func kfArrayRange(args []KeyBuilderStage) (KeyBuilderStage, error) {
 			return ErrorValue
 		}
 
+		// a length that cannot be held in memory: refuse, rather than append until the process dies
+		span, step := uint64(stop)-uint64(start), uint64(incr)
+		if incr < 0 {
+			span, step = uint64(start)-uint64(stop), -uint64(incr)
+		}
+		if span/step > maxOutputLen {
+			return ErrorValue
+		}
+
 		var sb strings.Builder
 		for i := start; (incr > 0 && i < stop) || (incr < 0 && i > stop); i += incr {
 			if sb.Len() > 0 {
